@@ -274,6 +274,13 @@ def rnd_settings(rng):
 def rnd_region_data(rng, rid, around=None):
     cx, cy = around if around else (rng.randint(20, 180), rng.randint(20, 180))
     off = 1.0 / 2048        # dyadic: every float operation of the containment tests is exact
+    if around is None and rng.random() < 0.12:
+        # regions at the bed edge / origin, of zero size: values that are exactly 0 are legal values
+        return rng.choice([dict(type='RectangularRegion', id=rid, x1=0.0, y1=0.0, x2=float(rng.randint(5, 30)), y2=float(rng.randint(5, 30))),
+                           dict(type='CircularRegion', id=rid, cx=0.0, cy=0.0, r=float(rng.randint(3, 9))),
+                           dict(type='CircularRegion', id=rid, cx=float(cx), cy=float(cy), r=0.0),
+                           dict(type='RectangularRegion', id=rid, x1=float(cx), y1=float(cy) - 5, x2=float(cx), y2=float(cy) + 5),
+                           dict(type='CircularRegion', id=rid, cx=float(cx), cy=0.0, r=4.0)])
     if rng.random() < 0.6:
         w, h = rng.choice([(3, 4), (6, 8), (5, 12), (9, 12), (8, 6), (rng.randint(3, 14), rng.randint(3, 14))])
         d = dict(type='RectangularRegion', id=rid, x1=cx - w + off, y1=cy - h + off, x2=cx + w + off, y2=cy + h + off)
@@ -338,9 +345,9 @@ def gen_history(rng, dirty_before_start=False):
                 rid = rng.choice(['', '', '0'])       # legal ids that happen to be falsy / look like numbers
             data = rnd_region_data(rng, rid)
             if rng.random() < 0.07:
-                data['type'] = 'TriangularRegion'
+                data['type'] = rng.choice(['TriangularRegion', '', 'Region', 'Rectangular', 'rectangularregion', 'CircularRegionX', 'Circular'])
             evs.append(('api', 'addExcludeRegion', data, anon))
-            if not anon and rid not in regs and data['type'] != 'TriangularRegion':
+            if not anon and rid not in regs and data['type'] in ('RectangularRegion', 'CircularRegion'):
                 regs[rid] = data
                 dyadic.add(rid)
         elif k < 0.75:
@@ -388,7 +395,7 @@ def gen_history(rng, dirty_before_start=False):
             elif r < 0.15:
                 evs.append(('event', rng.choice(OTHER_EVENTS)))
             elif r < 0.19:
-                evs.append(('script', rng.choice(['gcode', 'gcode', 'other']), rng.choice(['afterPrintDone', 'beforePrintStarted', 'afterPrintCancelled'])))
+                evs.append(('script', rng.choice(['gcode', 'gcode', 'other']), rng.choice(['afterPrintDone', 'afterPrintDone', 'beforePrintStarted', 'afterPrintCancelled', 'afterPrintPaused', 'beforePrintResumed', 'afterPrinterConnected'])))
             elif r < 0.21:
                 st = rnd_settings(rng)
                 evs.append(('settings', st))
@@ -434,7 +441,7 @@ def merge_into(r, ctx, tag, nq, nt, extra=()):
 def atc_history(rng):
     """a print during which the @-command action table is edited: commands added, removed, patterns changed"""
     reg = dict(type='RectangularRegion', id='a1', x1=10.0 + 1.0 / 2048, y1=10.0 + 1.0 / 2048, x2=20.0 + 1.0 / 2048, y2=20.0 + 1.0 / 2048)
-    tables = [DEFAULT_ATC, DEFAULT_ATC + [('Purge', None, 'disable_exclusion')], DEFAULT_ATC + [('ExcludeRegion', '^\\s*off', 'disable_exclusion')],
+    tables = [DEFAULT_ATC, [('Region', 'on', 'enable_exclusion'), ('Region', 'off', 'disable_exclusion')] + DEFAULT_ATC, DEFAULT_ATC + [('Purge', None, 'disable_exclusion')], DEFAULT_ATC + [('ExcludeRegion', '^\\s*off', 'disable_exclusion')],
               [('Purge', None, 'disable_exclusion'), ('Purge', '^\\s*now', 'disable_exclusion'), DEFAULT_ATC[0]], [DEFAULT_ATC[1], DEFAULT_ATC[0]], [DEFAULT_ATC[0], ('Purge', '^\\s*now', 'disable_exclusion')],
               DEFAULT_ATC + [('Resume', '^\\s*go', 'enable_exclusion'), ('Purge', None, 'disable_exclusion')], [], [DEFAULT_ATC[1]]]
     st = rnd_settings(rng)
@@ -453,7 +460,7 @@ def atc_history(rng):
             evs.append(('cmd', rng.choice(['G1 X15 Y15 E%.1f', 'G1 X12 Y18 E%.1f']) % e))
             if rng.random() < 0.5:
                 evs.append(('cmd', rng.choice(['M117 inside', 'M204 S800', 'G1 X16 Y16'])))
-            evs.append(('at', rng.choice(['@Purge', '@Purge now', '@ExcludeRegion off', '@ExcludeRegion off', '@Resume go', '@ExcludeRegion on']), False))
+            evs.append(('at', rng.choice(['@Purge', '@Purge now', '@ExcludeRegion off', '@ExcludeRegion off', '@Resume go', '@ExcludeRegion on', '@Region report position', '@Region z-offset 0.2', '@Region off', '@Region on']), False))
             e += 0.5
         elif k < 0.75:
             evs.append(('at', rng.choice(['@Purge', '@Purge now', '@Resume go', '@ExcludeRegion on', '@ExcludeRegion off', '@Resume']), False))
